@@ -504,6 +504,12 @@ func parseHeader(hdr, pkg string) (*Contract, error) {
 	}
 	c := &Contract{Pkg: pkg, Header: hdr, LoopInv: map[int][]*Clause{}, LoopDec: map[int]*Clause{}, LoopMod: map[int][]*Clause{}}
 	name := fd.Name.Name
+	// anonymous functions: "parent__1" names the first closure of parent (go/ssa: parent$1)
+	if i := strings.LastIndex(name, "__"); i > 0 {
+		if _, err := strconv.Atoi(name[i+2:]); err == nil {
+			name = name[:i] + "$" + name[i+2:]
+		}
+	}
 	if fd.Recv != nil && len(fd.Recv.List) == 1 {
 		r := fd.Recv.List[0]
 		if len(r.Names) == 1 {
